@@ -249,6 +249,9 @@ class AddressRange(collections.namedtuple(
                 f"AddressRange expected a range '{address}'"
 
             start_col, start_row, end_col, end_row = address
+            # the corners come in any order: B2:A1 and A2:B1 are A1:B2
+            start_col, end_col = sorted((start_col, end_col), key=lambda c: c or 0)
+            start_row, end_row = sorted((start_row, end_row), key=lambda r: r or 0)
             start = AddressCell((start_col, start_row, start_col, start_row), sheet=sheet)
             end = AddressCell((end_col, end_row, end_col, end_row), sheet=sheet)
 
